@@ -547,6 +547,7 @@ class Z2:
         self.witnesses = {}
         self.skipped_overflow = 0
         self.points = 0
+        self.illformed = {}  # key -> (context, lo, hi, where): Integer::from_interval(lo, hi) with lo > hi panics (C18/P4)
 
     def resolve(self, qual):
         """`Type::helper` / `helper` -> the unique inherent (or free) non-test fn of relation/mod.rs with that name."""
@@ -597,6 +598,8 @@ class Z2:
         """declared [size.lo, size.hi] must contain the possible row counts [lo, hi]; one witness is kept per (bound, sub-case)."""
         if size is None:
             return
+        if size.lo.v > size.hi.v and key not in self.illformed:
+            self.illformed[key] = (ctx, size.lo.v, size.hi.v, where)
         for bound, bad, possible, tags, wrong_end in (("lo", size.lo.v > lo, lo, size.lo.tags, ".max"), ("hi", size.hi.v < hi, hi, size.hi.tags, ".min")):
             if not bad:
                 continue
